@@ -39,10 +39,11 @@ func Programs() []*Program {
 }
 
 // Generated enumerates program families over small alphabets:
-//   g1: all unordered pairs of single writer operations (incl. small transactions) x 2 initial sets, one reader;
-//   g2: one writer running a two-operation transaction (every ordered pair of writes over keys 0..2,
-//       committed and aborted, scheduling points between the operations) against a reader, from every
-//       initial subset of keys 0..2.
+//
+//	g1: all unordered pairs of single writer operations (incl. small transactions) x 2 initial sets, one reader;
+//	g2: one writer running a two-operation transaction (every ordered pair of writes over keys 0..2,
+//	    committed and aborted, scheduling points between the operations) against a reader, from every
+//	    initial subset of keys 0..2.
 func Generated(quick bool) []*Program {
 	alpha := []Op{h(0, 2), h(1, 2), u(0, 3), d(0), d(1), h(2, 2),
 		{Kind: Txn, Commit: true, Sub: []Op{d(0), h(1, 4)}}, {Kind: Txn, Commit: false, Sub: []Op{u(0, 5), h(2, 5)}}}
